@@ -69,9 +69,24 @@ class WStore:
         return {"edits": len(list(deltas)), "clamps": 0}
 
 
-def fresh_state(graph_sets):
-    return {"graphs_by_agent": {a: list(g) for a, g in graph_sets.items()}, "store": WStore(), "version_etag": "3",
-            "_boot_loaded": True}
+def graph_maps(graph_sets, shape="gba"):
+    """the three documented ways a state names an agent's graphs: graphs_by_agent, agents[a].graphs, or both maps present
+    with some agents listed in only one of them"""
+    if shape == "gba":
+        return {"graphs_by_agent": {a: list(g) for a, g in graph_sets.items()}}
+    if shape == "agents":
+        return {"agents": {a: {"graphs": list(g)} for a, g in graph_sets.items()}}
+    if shape == "mixed":
+        names = list(graph_sets)
+        return {"agents": {a: {"graphs": list(graph_sets[a])} for a in names[:1]},
+                "graphs_by_agent": {a: list(graph_sets[a]) for a in names[1:]}}
+    raise HarnessError("unknown state shape %r" % (shape,))
+
+
+def fresh_state(graph_sets, shape="gba"):
+    st = {"store": WStore(), "version_etag": "3", "_boot_loaded": True}
+    st.update(graph_maps(graph_sets, shape))
+    return st
 
 
 def make_standin(shape, computed):
@@ -146,7 +161,7 @@ def drive(case, scratch, par_on, tasks=None, limit=None, measure=None):
             iol.LogStager.stage = _stage
         cfg = _cfg(par_on, case["workers"], ex.snap_dir, case.get("cadence", 1))
         ctx = types.SimpleNamespace(cfg=cfg, config=cfg, turn_id=6, agent_id="batch", now_ms=W.NOW_MS, slice_idx=0)
-        state = fresh_state(case["graphs"])
+        state = fresh_state(case["graphs"], case.get("state_shape", "gba"))
         tl = tasks if tasks is not None else [(a, "t-" + a) for a in case["agents"]]
         try:
             res = orch._run_agents_parallel_batch(ctx, state, list(tl))
@@ -300,13 +315,13 @@ def _sel_worker(chunk, st: Stats):
     for n, idxs in chunk:
         agents = AGENTS[:n]
         graphs = {a: SUBSETS[i] for a, i in zip(agents, idxs)}
-        state = {"graphs_by_agent": graphs}
-        for workers in range(1, 7):
+        for shape, workers in [(sh, w_) for sh in ("gba", "agents", "mixed") for w_ in range(1, 7)]:
+            state = graph_maps(graphs, shape)
             picked = par_mod._select_independent_batch(list(agents), state, workers)
             st.add("transitions")
             st.add("validated")
             st.add("selections")
-            case = {"kind": "select", "agents": agents, "graphs": graphs, "workers": workers}
+            case = {"kind": "select", "agents": agents, "graphs": graphs, "workers": workers, "state_shape": shape}
             bad = None
             for i, a in enumerate(picked):
                 for b in picked[i + 1:]:
@@ -396,6 +411,11 @@ def cases(thorough):
             d = dict(c)
             d["cadence"] = 4
             extra.append(d)
+        if c["shape"] == "std" and len(c["agents"]) >= 2:
+            for shp in ("agents", "mixed"):
+                d = dict(c)
+                d["state_shape"] = shp
+                extra.append(d)
     return out + extra
 
 
